@@ -37,13 +37,18 @@ type compiled struct {
 	panic any
 }
 
-func compileUnit(src string) (c compiled) {
+func compileUnit(src string) compiled {
+	return compileFiles(map[string]string{"foo/v1/a.j5s": src})
+}
+
+// compileFiles: package foo.v1 of the given source files (the object under test is in foo/v1/a.j5s)
+func compileFiles(content map[string]string) (c compiled) {
 	defer func() {
 		if r := recover(); r != nil {
 			c.panic = r
 		}
 	}()
-	files, err := compile.Compile(context.Background(), map[string]string{"foo/v1/a.j5s": src}, "foo.v1")
+	files, err := compile.Compile(context.Background(), content, "foo.v1")
 	if err != nil {
 		c.err = err
 		return
